@@ -105,3 +105,66 @@ Section Cbc.
   Proof. unfold call_fn, call_src. evf. reflexivity. Qed.
 End Cbc.
 
+
+(* ---- C02 over the translated source: the whole block sequence ---------------------------------------- *)
+(* Running the TRANSLATED single-block bodies of cbc (through the interpreter) over any list of blocks computes the
+   CBC recurrences and leaves the final chaining value: the tie theorems above composed with the model-level
+   theorems of BlockModes_proofs.v.  No hypothesis relates D to E. *)
+From BM Require Import BlockModes_proofs Spec.
+Section CbcSource.
+  Variable C : cipher.
+  Variable n : nat.                                   (* the block size: all blocks and the IV have this length *)
+  Hypothesis E_len : forall x, length x = n -> length (c_E C x) = n.
+  Hypothesis D_len : forall x, length x = n -> length (c_D C x) = n.
+  Let X := bctx C [("xor", FSem xor_sem)] [].
+
+  Definition src_cbc_enc_step (iv : block) (c : cell) : option (block * cell) :=
+    match call_fn X cbc__encrypt__BlockModeEncBackend__Backend__encrypt_block [enc_self iv; VCell c] with
+    | Some (VUnit, [VStruct _ [("iv", VBlk iv'); _]; VCell c']) => Some (iv', c')
+    | _ => None
+    end.
+  Definition src_cbc_dec_step (iv : block) (c : cell) : option (block * cell) :=
+    match call_fn X cbc__decrypt__BlockModeDecBackend__Backend__decrypt_block [dec_self iv; VCell c] with
+    | Some (VUnit, [VStruct _ [("iv", VBlk iv'); _]; VCell c']) => Some (iv', c')
+    | _ => None
+    end.
+
+  Theorem C02_cbc_enc_source iv cs : length iv = n -> Forall (fun c => length (rd_in c) = n) cs ->
+    fold_src src_cbc_enc_step iv cs
+    = Some (cbc_chain iv (cbc_enc_spec (c_E C) iv (map rd_in cs)), map2 wr_out cs (cbc_enc_spec (c_E C) iv (map rd_in cs))).
+  Proof.
+    intros Hiv Hcs.
+    rewrite (fold_src_ok src_cbc_enc_step (cbc_enc_block C) (fun st => length st = n) (fun c => length (rd_in c) = n)); auto.
+    - now rewrite cbc_enc_fold.
+    - intros st c Hs Hc. unfold src_cbc_enc_step, X. rewrite (tie_cbc_encrypt_block C st c) by lia.
+      unfold cbc_enc_block. cbn [fst]. split; [reflexivity|]. apply E_len. rewrite xorb_length_eq; lia.
+  Qed.
+
+  Theorem C02_cbc_dec_source iv cs : length iv = n -> Forall (fun c => length (rd_in c) = n) cs ->
+    fold_src src_cbc_dec_step iv cs
+    = Some (cbc_chain iv (map rd_in cs), map2 wr_out cs (cbc_dec_spec (c_D C) iv (map rd_in cs))).
+  Proof.
+    intros Hiv Hcs.
+    rewrite (fold_src_ok src_cbc_dec_step (cbc_dec_block C) (fun st => length st = n) (fun c => length (rd_in c) = n)); auto.
+    - now rewrite cbc_dec_fold.
+    - intros st c Hs Hc. unfold src_cbc_dec_step, X. rewrite (tie_cbc_decrypt_block C st c) by (rewrite D_len; lia).
+      unfold cbc_dec_block. cbn [fst]. split; [reflexivity|]. exact Hc.
+  Qed.
+
+  (* C07 over the translated source: the hand-written parallel body on a batch of any width is the translated
+     single-block body run block by block -- same output cells, same chaining value *)
+  Theorem C07_cbc_dec_par_source iv cs : cs <> [] -> length iv = n -> Forall (fun c => length (rd_in c) = n) cs ->
+    call_fn X cbc__decrypt__BlockModeDecBackend__Backend__decrypt_par_blocks [dec_self iv; VCells cs]
+    = match fold_src src_cbc_dec_step iv cs with
+      | Some (iv', cs') => Some (VUnit, [dec_self iv'; VCells cs'])
+      | None => None
+      end.
+  Proof.
+    intros Hne Hiv Hcs. unfold X. rewrite (tie_cbc_decrypt_par_blocks C iv cs Hne).
+    rewrite (fold_src_ok src_cbc_dec_step (cbc_dec_block C) (fun st => length st = n) (fun c => length (rd_in c) = n)); auto.
+    - rewrite <- cbc_dec_par_ok. rewrite (cbc_dec_par_model C iv cs); [reflexivity|].
+      eapply Forall_impl; [|exact Hcs]. intros c Hc. cbv beta in Hc |- *. split; [rewrite D_len by lia; lia | lia].
+    - intros st c Hs Hc. unfold src_cbc_dec_step, X. rewrite (tie_cbc_decrypt_block C st c) by (rewrite D_len; lia).
+      unfold cbc_dec_block. cbn [fst]. split; [reflexivity|]. exact Hc.
+  Qed.
+End CbcSource.
